@@ -25,4 +25,4 @@ CONSTANTS
   NarrowSels <- NoNarrow
   KeyFam <- Fam
 INVARIANTS Inv_C01 Inv_C02 Inv_C03 Inv_C04 Inv_C04args Inv_C09 Inv_Clean EmitScenario
-CHECK_DEADLOCK FALSE
+CHECK_DEADLOCK TRUE
